@@ -3,7 +3,7 @@
 Nothing in /repo is touched; the functions named in `target` are located in the current working tree
 and their unmodified bodies are executed symbolically.
 """
-from pyvc.contract import Contract, contract, LoopSpec, V, attrs_of, cls_of, H
+from pyvc.contract import Contract, contract, LoopSpec, V, attrs_of, cls_of, H, Harness
 from pyvc.dsl import (And, Or, Not, Implies, Ite, All, Ex, AnyOf, eq, at, cat, seq, length, sub, is_z, holds)
 from . import spec_midi as S
 
@@ -207,3 +207,106 @@ class EncodeMessage(Contract):
             out['spec-wellformed.%d' % i] = c
         out['status-byte-fixed-by-type-and-channel'] = eq(at(rv, 0), S.TYPES[t]['status'] + (mv['channel'] if S.TYPES[t]['channel'] else 0))
         return out
+
+
+# ====================================================================== Message objects (C01)
+def msg_obj(h, type_, time='token'):
+    """a valid Message object of the given type with symbolic attribute values"""
+    import mido.messages.messages as M
+    info = S.TYPES[type_]
+    attrs = {'type': type_}
+    if time == 'token':
+        attrs['time'] = TimeToken()
+    elif time == 'real':
+        attrs['time'] = h.real('time')
+    else:
+        attrs['time'] = h.int('time')
+    for nm in info['names']:
+        if nm == 'data':
+            attrs['data'] = h.int_seq('data', M.SysexData, lo=0, hi=127, mutable=False)
+        else:
+            lo, hi = S.RANGES[nm]
+            attrs[nm] = h.int(nm, lo, hi)
+    h.attrs0 = dict(attrs)
+    return h.obj(M.Message, attrs)
+
+
+def _spec_view(attrs, type_):
+    return {k: V(attrs[k]) for k in S.TYPES[type_]['names']}
+
+
+class _MsgMethod(Contract):
+    properties = ('C01',)
+    configs = tuple({'type': t} for t in S.ALL_TYPES)
+
+    def inputs(self, h, cfg):
+        h.m = msg_obj(h, cfg['type'])
+        return [h.m], {}
+
+    def frame(self, h, cfg, a):
+        # the message is not modified
+        cur = attrs_of(h.m)
+        return {'message-unchanged': set(cur) == set(h.attrs0) and all(cur[k] is h.attrs0[k] for k in cur)}
+
+
+@contract
+class MessageBytes(_MsgMethod):
+    target = 'mido.messages.messages:Message.bytes'
+
+    def ensures(self, h, cfg, a, r):
+        mv = _spec_view(h.attrs0, cfg['type'])
+        return {'equals-spec-encoding': eq(V(r), S.spec_encode(cfg['type'], mv)), 'is-list': cls_of(r) is list}
+
+
+@contract
+class MessageLen(_MsgMethod):
+    target = 'mido.messages.messages:Message.__len__'
+
+    def ensures(self, h, cfg, a, r):
+        mv = _spec_view(h.attrs0, cfg['type'])
+        return {'len-equals-encoding-length': eq(V(r), length(S.spec_encode(cfg['type'], mv)))}
+
+
+@contract
+class MessageBin(_MsgMethod):
+    target = 'mido.messages.messages:BaseMessage.bin'
+
+    def ensures(self, h, cfg, a, r):
+        mv = _spec_view(h.attrs0, cfg['type'])
+        return {'equals-spec-encoding': eq(V(r), S.spec_encode(cfg['type'], mv)), 'is-bytearray': cls_of(r) is bytearray}
+
+
+_RT = {
+    'bytes': Harness('''
+        def roundtrip_bytes(Message, m):
+            return Message.from_bytes(m.bytes(), time=m.time) == m
+    '''),
+    'bin': Harness('''
+        def roundtrip_bin(Message, m):
+            return Message.from_bytes(m.bin(), time=m.time) == m
+    '''),
+    'len': Harness('''
+        def len_matches(Message, m):
+            return len(m) == len(m.bytes())
+    '''),
+}
+
+
+@contract
+class RoundTripBytes(Contract):
+    """decode(encode(m)) == m for every valid message: the real bytes()/bin() fed to the real from_bytes"""
+    target = 'harness:C01.roundtrip'
+    properties = ('C01',)
+    use = ('mido.messages.checks:check_data',)
+    configs = tuple({'type': t, 'via': v} for t in S.ALL_TYPES for v in ('bytes', 'bin', 'len'))
+
+    def callee(self, h, cfg):
+        return _RT[cfg['via']].get(h)
+
+    def inputs(self, h, cfg):
+        import mido.messages.messages as M
+        h.m = msg_obj(h, cfg['type'])
+        return [M.Message, h.m], {}
+
+    def ensures(self, h, cfg, a, r):
+        return {'equal-to-original': eq(V(r), True)}
